@@ -382,18 +382,19 @@ def _ns_lookup(q, R, rid, outer_keys):
     outer = q.by_key.get(sorted(outer_keys)[0]) if len(outer_keys) == 1 else q.fn("get_namespace", impl_ty="quill::tree::mappings::Mappings<")
     if not R.anchor(rid, "fn Mappings::get_namespace (called by remove_dummy for the `namespace` argument)", outer):
         return
-    # outer delegates to self.info.namespaces.<lookup>(name)
-    res = H.peel(_result_expr(outer["body"]) or {}, tries=True)
-    ok = False
-    inner = None
-    if res.get("k") == "mcall" and len(res["args"]) == 1:
-        inner = q.by_key.get((res.get("callee") or {}).get("key"))
-        root, path = H.place_root(res["recv"])
-        a = H.local_of(res["args"][0])
-        pids = H.param_ids(outer)
-        ok = (inner is not None and bool(root) and len(pids) == 2 and root[0] == pids[0] and _plain(path) == ["info", "namespaces"]
-              and bool(a) and a[0] == pids[1])
-    R.inst(rid, "ns-lookup:Mappings.get_namespace", ok, sp=outer["sp"], expect="self.info.namespaces.get_namespace(name)", got=H.render(res)[:120])
+    # outer delegates to self.info.namespaces.<lookup>(name): compared as a normal-form term (locals inlined, `?` / context transparent);
+    # the lookup function is the crate function that call resolves to
+    ok, got, inner = False, None, None
+    if len(H.param_ids(outer)) == 2:
+        local_calls = [n for n in H.walk(outer["body"]) if n.get("k") in ("call", "mcall") and
+                       ((n.get("callee") or {}).get("inst_key") in q.by_key or (n.get("callee") or {}).get("key") in q.by_key)]
+        if len(local_calls) == 1:
+            c = local_calls[0].get("callee") or {}
+            inner = q.by_key.get(c.get("inst_key")) or q.by_key.get(c.get("key"))
+        act = N.result_term(N.Norm(outer, ["self", "name"]))
+        got = N.show(act) if act is not None else None
+        ok = inner is not None and act == N.parse("%s($self.info.namespaces, $name)" % inner["name"], N.build_env(["self", "name"]))
+    R.inst(rid, "ns-lookup:Mappings.get_namespace", ok, sp=outer["sp"], expect="self.info.namespaces.get_namespace(name)", got=got)
     if inner is None:
         inner = q.fn("get_namespace", impl_ty="quill::tree::names::Namespaces<")
     if not R.anchor(rid, "fn Namespaces::get_namespace", inner):
